@@ -192,6 +192,11 @@ def disp_update(variant, changed):
                     if isinstance(mfv, SymEnum):
                         cl.append((z3.Implies(opt_none(mfv), S.struct_eq(st, g(f), o(f))), 'omitted field %s keeps its stored value' % f,
                                    'dispatcher_%s:omit_%s' % (variant, f)))
+                        if f in ('hub_contract', 'bsei_reward_contract'):
+                            # the principal the owner designates is the one stored at the end of the call, whatever else the
+                            # same message carries
+                            cl.append((z3.Implies(mfv.tag == 1, S.struct_eq(st, g(f), W.mk.caddr(mfv.alts[1].fields[0]))),
+                                       'supplied address %s is the one stored' % f, 'dispatcher_%s:setaddr_%s' % (variant, f)))
                 else:
                     cl.append((S.struct_eq(st, g(f), o(f)), 'field %s untouched' % f, 'dispatcher_%s:frame_%s' % (variant, f)))
             ctx.require_all(st, cl, W.mv)
@@ -200,7 +205,7 @@ def disp_update(variant, changed):
 
 
 # ---------------------------------------------------------------------- reward / registry
-def simple_update(contract, cfg_ty, cfg_key, msg_ty, variant, changed, owner_field='owner', extra_items=None):
+def simple_update(contract, cfg_ty, cfg_key, msg_ty, variant, changed, owner_field='owner', extra_items=None, hub_params=False):
     def ob(ctx):
         W = World(ctx, contract)
         W.owner = W.sv('owner')
@@ -213,7 +218,24 @@ def simple_update(contract, cfg_ty, cfg_key, msg_ty, variant, changed, owner_fie
         W.install()
         S = W.I.summ
         msg = sym_msg(W, msg_ty, variant)
-        raw_scenario(W, 'execute', msg, W.owner)
+        qt = None
+        if hub_params:
+            # environment of code that consults the hub it is pointed at: the hub answers a Parameters query with arbitrary
+            # parameters (the current tree never asks)
+            hp = W.fresh('basset::hub::Parameters', 'hub_answer', 'basset')
+            hubf = W.mk.vfield(msg, msg_ty, 'hub_contract', W.crate)
+            hub_name = hubf.alts[1].fields[0] if isinstance(hubf, SymEnum) else W.sv('some_hub')
+
+            def q_smart(st, addr, qmsg, tty, crate):
+                if isinstance(qmsg, Agg) and qmsg.vname == 'Parameters':
+                    yield st, ok(hp)
+                    return
+                raise Gap('smart query %r not modelled' % (qmsg,))
+            W.q_smart = q_smart
+
+            def qt(T):
+                return {'smart': [{'contract': T.string(hub_name), 'key': 'parameters', 'response': T.value(hp, 'basset')}]}
+        raw_scenario(W, 'execute', msg, W.owner, querier=qt)
         nok = 0
         for st, res in W.execute(msg, W.owner):
             if not is_ok(res):
@@ -248,7 +270,8 @@ OBLIGATIONS = [
     ('dispatcher_update_swap_denom', disp_update('UpdateSwapDenom', {'swap_denoms': 'swap_denom'})),
     ('dispatcher_update_oracle_contract', disp_update('UpdateOracleContract', {'oracle_contract': 'oracle_contract'})),
     ('reward_update_config', simple_update('reward', 'state::Config', b'\x00\x06config', 'basset::reward::ExecuteMsg', 'UpdateConfig',
-                                           {'hub_contract': 'hub_contract', 'reward_denom': 'reward_denom', 'swap_contract': 'swap_contract'})),
+                                           {'hub_contract': 'hub_contract', 'reward_denom': 'reward_denom', 'swap_contract': 'swap_contract'},
+                                           hub_params=True)),
     ('reward_update_swap_denom', simple_update('reward', 'state::Config', b'\x00\x06config', 'basset::reward::ExecuteMsg', 'UpdateSwapDenom',
                                                {'swap_denoms': 'swap_denom'})),
     ('registry_update_config', simple_update('registry', 'registry::Config', 'config', 'msg::ExecuteMsg', 'UpdateConfig', {'hub_contract': 'hub_contract'})),
@@ -306,6 +329,15 @@ def ORACLE(v, scn, out):
         f = what[6:]
         if a.get(f) != b.get(f):
             bad.append('field %s changed from %r to %r' % (f, a.get(f), b.get(f)))
+    elif what.startswith('setaddr_'):
+        f = what[8:]
+        if body.get(f) is not None:
+            from smir.replay import run_scenario
+            can = run_scenario({'kind': 'canonicalize', 'addresses': [body[f]]}).get('canonical', [None])[0]
+            if not isinstance(can, str):
+                return None
+            if b.get(f) != can:
+                bad.append('supplied %s=%r is not the stored one (stored %r, canonical form of the supplied %r)' % (f, body[f], b.get(f), can))
     elif what.startswith('set_'):
         f = what[4:]
         if body.get(f) is not None and _D(str(b.get(f))) != _D(str(body.get(f))) if f != 'reward_denom' else (body.get(f) is not None and b.get(f) != body.get(f)):
